@@ -260,7 +260,7 @@ pub fn run(rep: &mut Report) {
                                 let _ = dec.get_ctrl_handling();
                                 let _ = dec.process_keyevent(KeyEvent::new(*k, s));
                                 dec.change_layout(dyn_layout((li + 1) % 10, 1));
-                                let _ = dec.process_keyevent(KeyEvent { code: *k, state: s });
+                                let _ = dec.process_keyevent(KeyEvent::new(*k, s));
                             });
                             t.add("EventDecoder::new", 1);
                             t.add("EventDecoder::process_keyevent", 2 + bits.count_ones() as u64);
